@@ -329,6 +329,17 @@ class Gen:
             yield {"k": "unitop", "f": r.choice(["eq", "same_dims", "conv"]), "x": dimflip, "y": newq, "p": 2, "store": False}
         if r.random() < 0.25:
             yield self.g_edit(w, ni, sym)
+        if r.random() < 0.3:
+            # a quantity object that predates the edit of its own symbol, used as the defining VALUE of another
+            # symbol: what it is (its number times the value its unit had) is what must be stored
+            yield {"k": "quantity", "node": ni, "h": 0, "v": r.choice(VALUES[:5]), "s": r.choice([sym, sym + "*s", "k" + sym]),
+                   "route": "ctor", "store": True}   # (post-edit companion: same spelling, current meaning)
+            other = r.choice([s_ for s_ in self.syms if s_ != sym] or ["baz"])
+            have = other in w.nodes[ni % len(w.nodes)].model
+            slots = list(range(len(w.heap))) or [0]
+            yield {"k": "modify_q" if have and r.random() < 0.6 else "define_unit", "node": ni, "h": 0, "sym": other,
+                   "x": r.choice(slots), "prefixable": r.random() < 0.5, "explicit_registry": True}
+            yield self.g_probe_string(w, ni, sym=other)
         for s in spellings + [self.spell(sym)]:
             if r.random() < 0.75:
                 pr = self.g_probe_string(w, ni, s=s)
@@ -1091,7 +1102,13 @@ class Sim:
         k = op["k"]
         node = w.node(op)
         sym = op["sym"]
+        if "x" in op:
+            if not w.heap:
+                raise rw.Skip
+            rw._heap_quantity(w, op)  # Skip unless the slot holds a plain scalar quantity
         req = rw.make_cold_request(w, op)
+        if req is None:
+            raise rw.Skip
         cold = self.cold(req)
         warm, _ = rw.run_call(rw.EDITS[k], w, op)
         self.shape.append(k)
